@@ -598,6 +598,7 @@ class Program:
         self.by_name = {}
         self.by_short = {}
         self.closures = {}       # "{closure@span}" -> Function
+        self.consts = {}         # constants / statics / promoteds with MIR bodies
         self._index(text)
 
     def _index(self, text):
@@ -605,6 +606,21 @@ class Program:
         i, n = 0, len(lines)
         while i < n:
             ln = lines[i]
+            if (ln.startswith('const ') or ln.startswith('static ')) and ln.rstrip().endswith('= {'):
+                j = i
+                while j < n and lines[j] != '}':
+                    j += 1
+                head = ln.split(' ', 1)[1]
+                if head.startswith('mut '):
+                    head = head[4:]
+                # name ends at the ": TYPE = {" separator (first top-level ': ')
+                k = _find_top(head, ': ')
+                name = head[:k] if k >= 0 else head
+                f = Function(name, 'fn ' + name + '() -> ' + head[k + 2:-4].strip() + ' {', '\n'.join(lines[i:j + 1]), i + 1)
+                f.is_const = True
+                self.consts[name] = f
+                i = j + 1
+                continue
             if ln.startswith('fn '):
                 j = i
                 header = ln
